@@ -8,6 +8,7 @@ package main
 // payouts and one-time adjustments), C16 (bank rows).
 
 import (
+	"github.com/Factom-Asset-Tokens/factom"
 	"os"
 	"fmt"
 	"math/big"
@@ -175,6 +176,22 @@ func (m *ledgerMon) check(h uint32, b *BlockSpec, prevDump, dump []string, prevW
 			}
 		}
 		m.violate(sig, d.what, h)
+		// C11: "pays the winning records exactly the reward the grading algorithm assigns": a PEG
+		// discrepancy that appears, in the block that pays them, on the payout address of one of
+		// this block's reward rows is a reward credited with another amount than the one recorded
+		if d.t == int(fat2.PTickerPEG) && applied && b != nil {
+			paidHere := false
+			for _, e := range append(append([]factom.Entry{}, b.OPR...), b.SPR...) {
+				for _, t := range L.T[hx(e.Hash[:])] {
+					if t.action == 3 && t.from == d.addr {
+						paidHere = true
+					}
+				}
+			}
+			if paidHere {
+				m.violate("rewards:credit:"+eraOf(a, h), "reward recipient: "+d.what, h)
+			}
+		}
 	}
 	if !applied {
 		return
@@ -1044,6 +1061,30 @@ func pagingCheck(rep *Report, run *Run, g *Gen, s Setup, seed int64) {
 			}
 			for _, r := range rows {
 				k := key{r.Hash.String(), r.TxIndex}
+				// "the history exposed by the API agrees with the ledger": every field of the returned
+				// action equals the recorded row, whatever else is on the page
+				for _, t := range L.T[k.hash] {
+					if int(t.idx) != k.idx {
+						continue
+					}
+					var outs, wantOuts []string
+					for _, o := range r.Outputs {
+						outs = append(outs, fmt.Sprintf("%s:%d", hx(o.Address[:]), o.Amount))
+					}
+					for _, o := range t.outputs {
+						wantOuts = append(wantOuts, o[0]+":"+o[1])
+					}
+					from := ""
+					if r.FromAddress != nil {
+						from = hx(r.FromAddress[:])
+					}
+					got := fmt.Sprintf("%d|%s|%s|%d|%s|%d|%v", int(r.TxAction), from, r.FromAsset, r.FromAmount, r.ToAsset, r.ToAmount, outs)
+					want := fmt.Sprintf("%d|%s|%s|%d|%s|%d|%v", t.action, t.from, t.fromAsset, t.fromAmount, t.toAsset, t.toAmount, wantOuts)
+					rep.Count("paging:rows-compared")
+					if got != want {
+						rep.Violate("paging:content", fmt.Sprintf("%s: action %s/%d is returned as %s, the recorded row is %s", what, k.hash, k.idx, got, want), "")
+					}
+				}
 				if seen[k] {
 					rep.Violate("paging:duplicate", fmt.Sprintf("%s: action %s/%d returned twice across pages", what, k.hash, k.idx), "")
 				}
